@@ -243,6 +243,7 @@ package state
 // The message a constructor builds carries exactly the key, operation, entity
 // type and the JSON encodings of the values it was given.  That decoding the
 // encoded value yields the value again is the assumed json round-trip law.
+//@ event entityTypeCall := call EntityType
 //@ event newMsgCall := call newChangeMessage
 //@ func newChangeMessage
 //@   props C19
@@ -251,6 +252,10 @@ package state
 //@   loop 1 invariant [cfg] cfg != nil && fresh(cfg)
 //@   ensures [C19.new.key] key == "" ==> err != nil && result0 == nil
 //@   ensures [C19.new.ok] err == nil ==> result0 != nil && fresh(result0) && result0.Key == key && result0.Headers.Operation == op && key != ""
+//@   ensures [C19.new.type] err == nil ==> result0.Type == ite(cfg.entityType != "", cfg.entityType, lastres(entityTypeCall, String))
+//@   ensures [C19.new.txid] err == nil ==> result0.Headers.TxID == cfg.txID
+//@   ensures [C19.new.timestamp] err == nil ==> (cfg.timestamp != nil ==> result0.Headers.Timestamp == timeFormat(*cfg.timestamp, "2006-01-02T15:04:05.999999999Z07:00")) &&
+//@        (cfg.timestamp == nil && !cfg.autoTimestamp ==> result0.Headers.Timestamp == "")
 //@   ensures [C19.new.value] err == nil && value != nil ==> result0.Value == json(boxOf(*T, value))
 //@   ensures [C19.new.novalue] err == nil && value == nil ==> result0.Value == ""
 //@   ensures [C19.new.old] err == nil && oldValue != nil ==> result0.OldValue == json(boxOf(*T, oldValue))
